@@ -1,0 +1,35 @@
+//go:build verif
+
+package hh
+
+import "time"
+
+// VerifQueue exposes the unexported queue to external verification harnesses.
+type VerifQueue struct{ q *queue }
+
+// NewVerifQueue creates a queue handle over dir.
+func NewVerifQueue(dir string, maxSize int64, maxWrites int) (*VerifQueue, error) {
+	q, err := newQueue(dir, maxSize, maxWrites)
+	if err != nil {
+		return nil, err
+	}
+	return &VerifQueue{q: q}, nil
+}
+
+func (v *VerifQueue) Open() error                        { return v.q.Open() }
+func (v *VerifQueue) Close() error                       { return v.q.Close() }
+func (v *VerifQueue) Append(b []byte) error              { return v.q.Append(b) }
+func (v *VerifQueue) Current() ([]byte, error)           { return v.q.Current() }
+func (v *VerifQueue) Advance() error                     { return v.q.Advance() }
+func (v *VerifQueue) Empty() bool                        { return v.q.Empty() }
+func (v *VerifQueue) Truncate() error                    { return v.q.Truncate() }
+func (v *VerifQueue) SetMaxSegmentSize(size int64) error { return v.q.SetMaxSegmentSize(size) }
+func (v *VerifQueue) PurgeOlderThan(t time.Time) error   { return v.q.PurgeOlderThan(t) }
+func (v *VerifQueue) DiskUsage() int64 {
+	v.q.mu.RLock()
+	defer v.q.mu.RUnlock()
+	return v.q.diskUsage()
+}
+
+// VerifDefaultSegmentSize is the default segment size.
+const VerifDefaultSegmentSize = defaultSegmentSize
